@@ -7,7 +7,7 @@ r"""C10 - each node's math/text mode is the one implied by the enclosing structu
 (b) BE: all words over {$, a, {, }, space, \(, \), \[, \]} up to a length bound against a
     reference recursive-descent parser: accept/reject, tree shape, delimiters, modes.
 """
-from mc import engine, contexts, docgen, words
+from mc import engine, contexts, docgen, words, canon
 from mc.engine import run_guarded, exc_frame
 from mc.ref import mathlang
 from mc.checks.c02 import first_diff, diff_kind
@@ -33,18 +33,90 @@ def deep_docs(size):
     return _DEEP[size]
 
 
+# ---- constructs whose one delta both switches the mode and extends the context (custom context X)
+
+def scoped_docs(depth, mode, scope):
+    """Documents whose every character is 'm' where math mode is implied and 't' where text mode is implied.
+    scope = names of the body-local macros defined at this point."""
+    leaf = 'm' if mode else 't'
+    out = [leaf]
+    if depth == 0:
+        return out
+    inner_sets = []
+    wr = [('{', '}', mode, scope), ('\\begin{elist}', '\\end{elist}', mode, scope | {'xitem'}),
+          ('\\begin{emx}', '\\end{emx}', True, scope | {'lm'}), ('\\tx{', '}', False, scope | {'lt'}),
+          ('\\textbf{', '}', mode, scope)]
+    if not mode:
+        wr.append(('$', '$', True, scope))
+        wr.append(('\\[', '\\]', True, scope))
+    for name in sorted(scope & {'lm', 'lt'}):
+        wr.append(('\\%s{' % name, '}', mode, scope))
+    for (op, cl, m2, sc2) in wr:
+        for inner in scoped_docs(depth - 1, m2, sc2):
+            out.append(leaf + op + inner + cl + leaf)
+    return out
+
+
+def check_scoped(s, acc):
+    case = dict(s=s, ctx='X')
+    acc.count('evaluations')
+    acc.count('nontrivial')
+    acc.count('scoped_docs')
+    st, res = run_guarded(contexts.parse, s, 'X', False)
+    if st != 'ok':
+        acc.violation(ID, 'scoped', case, dict(kind='scoped-document-does-not-parse', exc=type(res).__name__ if st == 'exc' else st),
+                      observed=repr(res)[:300])
+        return
+
+    def walk(nodes):
+        prev = None
+        for n in nodes or []:
+            if n is None:
+                continue
+            k = canon.kind_of(n)
+            got = bool(n.parsing_state.in_math_mode)
+            if k == 'chars':
+                letters = set(n.chars)
+                if letters - {'m', 't'} or len(letters) != 1:
+                    return dict(kind='scoped-structure-differs', chars=n.chars[:20])
+                prev = (letters == {'m'})
+                if got != prev:
+                    return dict(kind='mode-differs-from-enclosing-structure', node='chars', expected_math=prev)
+            else:
+                if prev is not None and got != prev:
+                    return dict(kind='mode-differs-from-enclosing-structure', node=k, name=getattr(n, 'macroname', getattr(n, 'environmentname', None)),
+                                expected_math=prev)
+                if getattr(n, 'nodeargd', None) is not None and n.nodeargd.argnlist:
+                    for a in n.nodeargd.argnlist:
+                        if a is not None:
+                            r = walk([a])
+                            if r:
+                                return r
+                if k in ('group', 'environment', 'math'):
+                    r = walk(n.nodelist)
+                    if r:
+                        return r
+        return None
+    bad = walk(res[1])
+    if bad:
+        acc.violation(ID, 'scoped', case, bad)
+
+
 def plan(tier):
     b = BOUNDS[tier]
     shards = [('be', sh) for sh in words.prefix_shards(words.SIGMA_M, b['N'], 2)]
     shards += [('dd', sh) for sh in docgen.shards(tier)]
     shards += [('deep', k) for k in range(NSL)]
+    shards += [('scoped', k) for k in range(8)]
     return dict(
-        shards=shards, bounds=dict(b, alphabet=words.SIGMA_M, deep_calls=sorted(MATH_CALLS)),
+        shards=shards, bounds=dict(b, alphabet=words.SIGMA_M, deep_calls=sorted(MATH_CALLS), scoped_depth=3 if tier == 'quick' else 4),
         rule=('(b) every word of length <= %d over the 9-symbol math alphabet, default context, strict parse, compared with the '
               'reference parser mc/ref/mathlang.py (accept/reject; skeleton with delimiters, displaytype and per-node mode); '
               '(a) ' % b['N'] + docgen.describe(tier) + ', plus all derivations of size <= %d of the math-nesting grammar '
               '(text, symbol, groups, the four formula forms, \\text, \\textbf, \\ensuremath, \\frac, equation; no deviations); '
-              'every node mode compared with the derivation.  non-trivial = cases containing at least one formula; '
+              'every node mode compared with the derivation; (c) all nestings to depth 3 (4) of groups, formulas and custom constructs whose single '
+              'delta both switches the mode and extends the context (math environment / text-mode argument defining body-local macros, '
+              'context-extending environment), every character of the document naming the mode it must be recorded in.  non-trivial = cases containing at least one formula; '
               'cases are distinct by construction.' % b['deep']),
         assumptions=['the reference parser encodes the documented delimiter rules (expected closing delimiter first, then longest match)'],
     )
@@ -114,6 +186,7 @@ def check_doc(doc, acc, sub='dd'):
     if got != exp:
         if docgen.strip_modes(got) != docgen.strip_modes(exp):
             acc.count('dd_structure_differs')   # C02 decides structure
+            acc.count('dd_structure_differs: %s %r' % (doc.ctx, doc.text[:120]))
             return
         d = first_diff(exp, got)
         acc.violation(ID, sub, case, dict(kind='mode-differs', ctx=doc.ctx,
@@ -122,6 +195,11 @@ def check_doc(doc, acc, sub='dd'):
 
 
 def run_shard(shard, tier, acc):
+    if shard[0] == 'scoped':
+        docs = scoped_docs(3 if tier == 'quick' else 4, False, frozenset())
+        for s in docs[shard[1]::8]:
+            check_scoped(s, acc)
+        return
     sub, sh = shard
     b = BOUNDS[tier]
     if sub == 'be':
@@ -144,6 +222,10 @@ def run_shard(shard, tier, acc):
 
 
 def replay(sub, case):
+    if sub == 'scoped':
+        acc = engine.Acc()
+        check_scoped(case['s'], acc)
+        return acc.violations
     acc = engine.Acc()
     if sub == 'be':
         check_word(case['s'], acc)
@@ -163,5 +245,6 @@ def finish(tier, merged, plan):
     if c['dd_with_math'] < 1000 or c['deep_docs'] < 1000:
         errs.append('sanity floor: dd_with_math=%d deep_docs=%d' % (c['dd_with_math'], c['deep_docs']))
     if c['dd_structure_differs'] or c['dd_not_parsed']:
-        errs.append('generated documents not parsed as written (%d / %d): see C02' % (c['dd_structure_differs'], c['dd_not_parsed']))
+        errs.append('generated documents not parsed as written (%d / %d): see C02; %s' % (
+            c['dd_structure_differs'], c['dd_not_parsed'], [k for k in c if k.startswith('dd_structure_differs: ')][:5]))
     return errs
